@@ -15,6 +15,7 @@ Decided (structural necessary conditions; networkx's search itself is trusted):
                    explicit_path returns only when first/last OMS touch the end ROADMs and consecutive OMS are adjacent.
  Rm memo          : every memoisation construct in the functions behind this property is keyed by everything it reads.
  Rp presence      : optional numeric fields are tested with `is None` / membership, never by truthiness (0 is a value).
+ R6 group constraints: in a disjunction group the scan of a combination stops early only after a STRICT failure.
 """
 import ast
 
@@ -251,6 +252,14 @@ def r5_helpers(ctx):
             sdef = [n for n in f.node.body if isinstance(n, ast.Assign) and ast.unparse(n.targets[0]) == src]
             ok = len(ext) == 1 and len(guard) == 1 and any(isinstance(n, ast.Raise) for n in ast.walk(guard[0])) and len(sdef) == 1 and \
                 bool(find(f'[V_e.oms.reversed_oms for V_e in {P} if E_c]', sdef[0])) and bool(find('reversed(E_x)', sdef[0]))
+            if ok:
+                # the crossed OMS are taken from EVERY line element (all classes but Transceiver and Roadm)
+                from ..typedomain import truth_table
+                hit = find(f'[V_e.oms.reversed_oms for V_e in {P} if E_c]', sdef[0])[0][1]
+                el = repo.module('gnpy.core.elements')
+                dom = [el.classes[n] for n in ('Fiber', 'RamanFiber', 'Fused', 'Edfa', 'Multiband_amplifier', 'Roadm', 'Transceiver')]
+                tt = truth_table(repo, f.module, hit['E_c'], [hit['V_e']], dom)
+                ok = all(v == (k[0] not in ('Roadm', 'Transceiver')) for k, v in tt.items())
             rets = [n for n in walk_no_nested(f.node) if isinstance(n, ast.Return)]
             ok = ok and len(rets) == 1 and ast.unparse(rets[0].value) == r
     ctx.check('R5.helpers', site(f), ok, key(f, 'reversed'),
@@ -300,6 +309,46 @@ def r5_helpers(ctx):
 
 
 
+def r6_group_constraints(ctx):
+    """R6: inside a disjunction group the include constraints are judged per request: while checking the paths of a candidate
+    combination the scan may only stop early after a STRICT request failed (the combination is then dropped); a failing
+    LOOSE request must not hide a later STRICT one"""
+    from ..pattern import find
+    repo = ctx.repo
+    f = repo.func(RQ, 'compute_path_dsjctn')
+    # the scan: a loop over the paths of one combination that calls ispart(<request>.nodes_list, path)
+    scans = []
+    for lp in [n for n in walk_no_nested(f.node) if isinstance(n, ast.For) and isinstance(n.target, ast.Name)]:
+        ip = [c for c in ast.walk(lp) if isinstance(c, ast.Call) and getattr(c.func, 'id', '') == 'ispart' and len(c.args) == 2 and
+              isinstance(c.args[1], ast.Name) and c.args[1].id == lp.target.id and enclosing(c, ast.For) is lp]
+        if ip:
+            scans.append((lp, ip[0]))
+    if len(scans) != 1:
+        raise CannotAnalyse(f'compute_path_dsjctn: {len(scans)} scans of a combination with ispart')
+    lp, ip = scans[0]
+    s = site(f, lp)
+    strict_ifs = [n for n in ast.walk(lp) if isinstance(n, ast.If) and isinstance(n.test, ast.Compare) and isinstance(n.test.ops[0], ast.In) and
+                  isinstance(n.test.left, ast.Constant) and n.test.left.value == 'STRICT' and ast.unparse(n.test.comparators[0]).endswith('.loose_list')]
+    ok = len(strict_ifs) == 1
+    ctx.check('R6.group-constraints', f'{s} STRICT test', ok, key(f, 'strict-test'),
+              'the scan of a combination does not test whether the failing request has a STRICT hop')
+    if ok:
+        si = strict_ifs[0]
+        fails = [n for n in si.body if isinstance(n, ast.Assign) and isinstance(n.targets[0], ast.Name) and isinstance(n.value, ast.Constant)
+                 and n.value.value is False]
+        brs = [n for n in ast.walk(lp) if isinstance(n, (ast.Break, ast.Return))]
+        inside = all(any(b is x for st in si.body for x in ast.walk(st)) for b in brs)
+        ctx.check('R6.group-constraints', f'{s} early exit only after a STRICT failure', bool(fails) and inside, key(f, 'strict-break'),
+                  'the scan of a combination stops at the first failing request even when it is LOOSE: a STRICT request later in the '
+                  'group is never examined and a route ignoring its STRICT hop is kept')
+        # the strict flag decides whether the combination survives as an alternate
+        flag = fails[0].targets[0].id if fails else None
+        uses = [n for n in walk_no_nested(f.node) if isinstance(n, ast.If) and flag and ast.unparse(n.test) == flag and n.lineno > lp.end_lineno]
+        ctx.check('R6.group-constraints', f'{s} STRICT failure drops the combination', bool(uses), key(f, 'strict-drops'),
+                  'a combination in which a STRICT request failed is still kept as an alternate')
+    ctx.need('R6.group-constraints', 3)
+
+
 from ..memo import rule_for as _memo_rule
 
 RULES_MEMO = ('Rm.memo', _memo_rule('C11', 'a route computed for another request or topology would be returned'))
@@ -310,4 +359,4 @@ from ..presence import rule_for as _presence_rule
 RULES_PRESENCE = ('Rp.presence', _presence_rule('C11', 'a legal zero would be read as missing'))
 
 RULES = [('R1.metric', r1_metric), ('R2.outcomes', r2_outcomes), ('R3.reasons', r3_reasons), ('R4.route-lists', r4_route_lists),
-         ('R5.helpers', r5_helpers), RULES_MEMO, RULES_PRESENCE]
+         ('R5.helpers', r5_helpers), RULES_MEMO, RULES_PRESENCE, ('R6.group-constraints', r6_group_constraints)]
